@@ -5,7 +5,7 @@ from vf.lazy import ck, libx, common
 from vf.monitors import algos, large
 
 PROP = "C13"
-TECHNIQUE = ('runtime monitoring of Copeland (consensus, scores, victory/equality/defeat counts) against the reference cost table; same-shape successor datasets on the shared object; sweep of every threshold size (63-1025 elements) against a vectorised Copeland; aggregation again after an in-place mutation; reshape twins; one dataset in twelve built from other ranking input forms (as in every property)')
+TECHNIQUE = ('runtime monitoring of Copeland (consensus, scores, victory/equality/defeat counts) against the reference cost table; same-shape successor datasets on the shared object; sweep of every threshold size (63-1025 elements) against a vectorised Copeland; aggregation again after an in-place mutation; reshape twins; one dataset in twelve built from other ranking input forms (as in every property); the bench_mode route')
 RULE = ("cases = dataset (D1-D7, D9; many equal-cost pairs through sparse rankings and degenerate schemes; n<=15) x scheme "
         "(S1-S4, S6); oracle = victories / equalities / defeats from the reference cost table; non-trivial = >= 3 elements "
         "and at least one equality or one pair decided only by unranked-status penalties; distinct = digest of (dataset, scheme)")
